@@ -302,6 +302,8 @@ class SQLiteTrigger(BaseTrigger):
         expected_last_execution: datetime | None = None,
     ) -> bool:
         with sqlite_conn(self.sqlite_db_path) as conn:
+            # check and write under one write lock (two runners must not both see "free")
+            conn.execute("BEGIN IMMEDIATE")
             cursor = conn.execute(
                 f"SELECT last_cron_execution FROM {self.tables.CONDITIONS} WHERE condition_id = ?",
                 (condition_id,),
@@ -356,6 +358,8 @@ class SQLiteTrigger(BaseTrigger):
         now = datetime.now(UTC)
         expiration = now + timedelta(seconds=expiration_seconds)
         with sqlite_conn(self.sqlite_db_path) as conn:
+            # check and write under one write lock (two runners must not both see "free")
+            conn.execute("BEGIN IMMEDIATE")
             cursor = conn.execute(
                 f"SELECT expiration FROM {self.tables.EXECUTION_CLAIMS} WHERE claim_key = ?",
                 (claim_key,),
@@ -379,6 +383,8 @@ class SQLiteTrigger(BaseTrigger):
         now = datetime.now(UTC)
         expiration = now + timedelta(seconds=expiration_seconds)
         with sqlite_conn(self.sqlite_db_path) as conn:
+            # check and write under one write lock (two runners must not both see "free")
+            conn.execute("BEGIN IMMEDIATE")
             cursor = conn.execute(
                 f"SELECT expiration FROM {self.tables.TRIGGER_RUN_CLAIMS} WHERE trigger_run_id = ?",
                 (trigger_run_id,),
